@@ -395,7 +395,8 @@ def check_task_done_pairing(c: Ctx) -> None:
     c.floor(len(sites), 2, 'dequeue sites')
     for u, call in sites:
         st = q.stmt_of(call)
-        if call_name(call) == 'get_nowait' or isinstance(parent(call), ast.Await):
+        returned = call_name(call) == 'get_nowait' and isinstance(parent(call), ast.Return)  # handed to the caller: the consumer is the caller, as for the awaited get()
+        if (call_name(call) == 'get_nowait' or isinstance(parent(call), ast.Await)) and not returned:
             g = c.cfg(u)
             qexpr = U(call.func.value)
             for n in g.nodes_of(st):
@@ -434,7 +435,7 @@ def check_task_done_pairing(c: Ctx) -> None:
     # task_done() only after the dequeued event has been handed to process_event (join() must not return while it is still being processed)
     for u, call in dequeue_sites(c):
         st_ = q.stmt_of(call)
-        if not (call_name(call) == 'get_nowait' or isinstance(parent(call), ast.Await)):
+        if not (call_name(call) == 'get_nowait' or isinstance(parent(call), ast.Await)) or isinstance(parent(call), ast.Return):
             continue
         g_ = c.cfg(u)
         qexpr = U(call.func.value)
